@@ -569,7 +569,7 @@ func main() {
 				}, func(i int) any { return strings.Repeat("x", i*3) }, b+1),
 				sharedDecoder("length-field", func() netty.Handler { return frame.LengthFieldCodec(binary.BigEndian, 1024, 0, 2, 0, 2) }, []byte{0, 3, 'a', 'b', 'c', 0, 1, 'z'}, []string{"abc", "z"}, b),
 				sharedDecoder2("length-field(magic byte + length, header kept in the frame)", func() netty.Handler { return frame.LengthFieldCodec(binary.BigEndian, 1024, 1, 1, 0, 0) },
-					[2][]byte{{'A', 3, 'a', 'b', 'c', 'A', 1, 'z'}, {'B', 2, 'r', 's', 'B', 1, 'q'}}, [2][]string{{"A\x03abc", "A\x01z"}, {"B\x02rs", "B\x01q"}}, b+1),
+					[2][]byte{{'A', 3, 'a', 'b', 'c', 'A', 1, 'z'}, {'B', 2, 'r', 's', 'B', 1, 'q'}}, [2][]string{{"A\x03abc", "A\x01z"}, {"B\x02rs", "B\x01q"}}, b),
 				sharedDecoder("varint", func() netty.Handler { return frame.VarintLengthFieldCodec(1024) }, []byte{3, 'a', 'b', 'c', 1, 'z'}, []string{"abc", "z"}, b),
 				sharedDecoder("delimiter", func() netty.Handler { return frame.DelimiterCodec(1024, "\r\n", true) }, []byte("ab\r\nc\r\n"), []string{"ab", "c"}, b),
 				sharedDecoder("fixed-length", func() netty.Handler { return frame.FixedLengthCodec(3) }, []byte("abcxyz"), []string{"abc", "xyz"}, b),
